@@ -115,6 +115,14 @@ def inherent(ex, ci, sb, meth, args, fn, dest_ty):
         d = ex.deref(a0)
         if meth == 'is_ipv4': return d.variant == 0
         if meth == 'is_ipv6': return d.variant == 1
+        if meth == 'to_canonical':
+            if d.variant == 0: return ex.copyval(d)
+            segs = [c_.v for c_ in d.fields[0].v.fields]
+            mapped = z_and(*[seq(ex, s_, Int(0, 'u16')) for s_ in segs[:5]] + [seq(ex, segs[5], Int(0xffff, 'u16'))])
+            if ex.branch(mapped):
+                o = [ex.cast(ex.binop('Shr', segs[6], Int(8, 'u16')), 'u8'), ex.cast(segs[6], 'u8'), ex.cast(ex.binop('Shr', segs[7], Int(8, 'u16')), 'u8'), ex.cast(segs[7], 'u8')]
+                return Agg('IpAddr', 0, [Cell(Agg('Ipv4Addr', None, [Cell(x) for x in o]))])
+            return ex.copyval(d)
     if sb == 'SocketAddr' and meth == 'new': return Agg('SocketAddr', None, [Cell(tup(a0, args[1]))])
     # ------------------------------------------------------------------ Arc / Rc / Mutex / RwLock (single-threaded, never poisoned)
     if sb in ('Arc', 'Rc'):
@@ -179,6 +187,14 @@ def inherent(ex, ci, sb, meth, args, fn, dest_ty):
         if meth == 'is_empty': return len(q.entries) == 0
         if meth == 'push':
             old = map_insert(ex, q, args[1], args[2]); return opt(old)
+        if meth in ('push_increase', 'push_decrease'):
+            i = map_find(ex, q, args[1])
+            if i is None:
+                q.entries.append([Cell(args[1]), Cell(args[2])]); return opt(None)
+            c_ = scmp(ex, args[2], q.entries[i][1].v)
+            if (c_ > 0) if meth == 'push_increase' else (c_ < 0):
+                old = q.entries[i][1].v; q.entries[i][1].v = args[2]; return opt(old)
+            return opt(args[2])
         if meth == 'change_priority':
             i = map_find(ex, q, args[1])
             if i is None: return opt(None)
@@ -206,6 +222,13 @@ def inherent(ex, ci, sb, meth, args, fn, dest_ty):
         if meth == 'iter': return Iter('pylist', vals=[tup(Ref(k), Ref(c_)) for k, c_ in q.entries], i=0)
         if meth == 'clear': q.entries = []; return unit()
     if sb == 'Reverse': return Agg('Reverse', None, [Cell(a0)])
+    # ------------------------------------------------------------------ async plumbing (single poll; leaf futures are harness stubs)
+    if sb in ('Future', 'IntoFuture', 'Instrument') or meth in ('poll', 'into_future', 'instrument'):
+        if meth == 'into_future': return a0
+        if meth in ('instrument', 'in_current_span', 'with_current_subscriber'): return a0
+        if meth == 'poll': return poll_future(ex, a0, args[1] if len(args) > 1 else None)
+    if meth == 'timeout' and (c.endswith('timeout') or 'time::timeout' in c):
+        return Agg('Timeout', None, [Cell(args[1])])
     # ------------------------------------------------------------------ Pin / misc wrappers
     if sb == 'Pin':
         if meth in ('new', 'new_unchecked', 'as_mut', 'get_mut', 'get_unchecked_mut', 'into_inner', 'as_ref', 'get_ref', 'into_ref'): return a0
@@ -218,6 +241,24 @@ def inherent(ex, ci, sb, meth, args, fn, dest_ty):
         r = hook(ex, ci, sb, meth, args, fn, dest_ty)
         if r is not NotImplemented: return r
     return NotImplemented
+
+
+def poll_future(ex, f, cx):
+    """Future::poll on a runtime value: coroutines run their MIR body, wrappers forward, stub futures are ready"""
+    v = f; last = None
+    while isinstance(v, Ref): last = v; v = v.cell.v
+    if isinstance(v, Closure) and last is not None: f = last       # single-level &mut to the coroutine itself
+    if isinstance(v, Opaque) and v.tag == 'stubfuture':
+        return Agg('Poll', 0, [Cell(v.data)])
+    if isinstance(v, Closure) and v.body is not None:
+        return ex.call_fn(v.body, [f if isinstance(f, Ref) else Ref(Cell(v)), cx])
+    if isinstance(v, Agg) and v.name == 'Timeout':
+        r = poll_future(ex, Ref(v.fields[0]), cx)
+        if r.variant == 0: return Agg('Poll', 0, [Cell(ok(r.fields[0].v))])     # the timer never fires before the future is ready
+        return r
+    if isinstance(v, Agg) and v.name in ('Instrumented', 'Pin', 'Box') and v.fields:
+        return poll_future(ex, Ref(v.fields[0]), cx)
+    raise Unsupported(f'poll of {v!r}')
 
 
 def type_name_of(v):
